@@ -44,7 +44,7 @@ def undone_early_case(draw, cfg: G.GenCfg):
 
 
 @st.composite
-def cases(draw, cfg: G.GenCfg = CFG_OUT, with_boom: bool = False, templates: bool = False):
+def cases(draw, cfg: G.GenCfg = CFG_OUT, with_boom: bool = False, templates: bool = False, faults: bool = False):
     if templates and draw(st.integers(0, 4)) == 0:
         return draw(undone_early_case(cfg))
     tree = draw(G.program(cfg))
@@ -55,6 +55,10 @@ def cases(draw, cfg: G.GenCfg = CFG_OUT, with_boom: bool = False, templates: boo
     for _ in range(draw(st.integers(4, 14))):
         for _ in range(draw(st.integers(0, 2))):
             steps.append(["user", draw(USER)])
+        if faults and draw(st.integers(0, 11)) == 0:
+            # an error that pauses the run in whatever state it is in (also Holding): one failing hardware read in the next
+            # tick or an injected command whose exec raises.  (A failing WRITE is not used here: it is the boundary C08 observes.)
+            steps.append(["fault", draw(st.sampled_from(["read", "read", "inject-boom"]))])
         for _ in range(draw(st.integers(1, 6))):
             steps.append(["tick", 0.1])
     hw_init = {"Out1": float(draw(st.sampled_from([0, 9, 4]))), "Out2": float(draw(st.sampled_from([1, 3, 0])))}
@@ -73,6 +77,9 @@ def valid(case) -> bool:
                     return False
             elif s[0] == "user":
                 if s[1] not in USER_OPS:
+                    return False
+            elif s[0] == "fault":
+                if s[1] not in ("read", "inject-boom"):
                     return False
             else:
                 return False
@@ -161,6 +168,13 @@ def run(case, max_ticks: int = 400):
         steps = steps + list(case["steps"])
         gap_ops: list = []
         for step in steps[:max_ticks]:
+            if step[0] == "fault":
+                if step[1] == "inject-boom":
+                    h.inject("Boom: x")
+                else:
+                    h.hw.fail_read = True      # lasts one tick
+                info["faults"] = info.get("faults", 0) + 1
+                continue
             if step[0] == "user":
                 name = step[1]
                 if name == "toggle-pause":
@@ -175,6 +189,7 @@ def run(case, max_ticks: int = 400):
                     info["rejected"] += 1
                 continue
             o = h.tick(float(step[1]))
+            h.hw.fail_read = False
             r = snap(o, prev_state, prev_flags, ev_from, gap_ops)
             recs.append(r)
             ev_from = len(h.events)
